@@ -42,6 +42,7 @@ def configs(thorough: bool) -> list:
                            rmod=2, corpussel=0)),
             ("seqs", dict(fams=q(ALLFAMS), nsers="0,1,3", catsel="3,7", xysel="1,4,5", L=3, fmt="all", reopen="end", rmod=2, corpussel=0)),
             ("corpus", dict(fams='"corpus"', nsers="0,1,2,5", catsel="2,4,7", xysel="1,3,4,5", L=2, fmt="none", reopen="end", rmod=3, corpussel=0)),
+            ("multi", dict(fams='"corpus"', nsers="1,2,3,4,5,6,7", catsel="2,5", xysel="1", L=2, fmt="none", reopen="end", rmod=1, corpussel=100000)),
             ("staged", dict(fams=q(ALLFAMS), nsers="1,2,3", catsel="2,3,4,5,7,9", xysel="3,4,5,6", L=2, fmt="none", reopen="end", rmod=2, corpussel=0,
                             hows='"staged", "fresh"')),
         ]
@@ -51,6 +52,8 @@ def configs(thorough: bool) -> list:
         ("seqs", dict(fams=q(["bar", "doughnut", "radar", "xy", "bubble"]), nsers="0,2,3", catsel="4,7", xysel="1,4,5", L=2, fmt="ends",
                       reopen="end", rmod=3, corpussel=0)),
         ("corpus", dict(fams='"corpus"', nsers="0,1,5", catsel="2,5,7", xysel="1,3,5", L=1, fmt="none", reopen="end", rmod=2, corpussel=3)),
+        # the multi-plot charts of the corpus: every series count from one to more than they hold (every cut between and inside the plots)
+        ("multi", dict(fams='"corpus"', nsers="1,2,3,4,5,6", catsel="2", xysel="1", L=1, fmt="none", reopen="end", rmod=1, corpussel=100000)),
         # more than ten series (c:idx / c:order cross a decimal-digit boundary): grow to 12, shrink from 12, 12 -> 11
         ("wide", dict(fams=q(["bar", "line", "xy"]), nsers="1,11,12", catsel="1", xysel="7,9", L=1, fmt="none", reopen="end", rmod=1, corpussel=0)),
         # one chart-data object rendered when half built, then completed (ReplaceData with the completed object)
